@@ -194,7 +194,7 @@ fn all_pixels(w: u32, h: u32) -> Vec<(u32, u32)> {
 }
 
 pub fn run(ctx: &Ctx) -> Outcome {
-    let (bw, bh) = if ctx.quick() { (100u32, 48u32) } else { (160, 65) };
+    let (bw, bh) = if ctx.quick() { (100u32, 48u32) } else { (256, 136) };
     let mut sizes: Vec<(u32, u32, bool)> = vec![]; // (w, h, sampled pixels only)
     for w in 0..=bw {
         for h in 0..=bh {
@@ -208,6 +208,21 @@ pub fn run(ctx: &Ctx) -> Outcome {
     for big in [(1u32, 255u32), (1020, 255), (4096, 64), (65532, 8)] {
         sizes.push((big.0, big.1, true));
     }
+    // more large sizes (sampled pixels): random dimensions whose pixel area stays below 4 MB
+    let n_large_random = if ctx.quick() { 12 } else { 600 };
+    {
+        let mut rng = ctx.rng("large-sizes", 0);
+        while sizes.len() < box_n + 11 + 4 + n_large_random {
+            let hmax = if rng.bool() { 300 } else { 4000 };
+            let h = 1 + rng.below(hmax) as u32;
+            let wmax = if rng.bool() { 3000 } else { 70_000 };
+            let w = 1 + rng.below(wmax) as u32;
+            if (w as usize) * refs::col_bytes(h) <= 4 << 20 {
+                sizes.push((w, h, true));
+            }
+        }
+    }
+    let n_large = 4 + n_large_random as u64;
     let ns = sizes.len();
     let report = run_sharded(ctx, ns + 3, |shard, rep| {
         let mut rng = ctx.rng("size", shard as u64);
@@ -241,7 +256,7 @@ pub fn run(ctx: &Ctx) -> Outcome {
     let floors = vec![
         floor("every size of the box checked", report.get("box_sizes_done") == box_n as u64, report.get("box_sizes_done")),
         floor("11 real sizes checked", report.get("real_sizes_done") == 11, report.get("real_sizes_done")),
-        floor("4 large sizes checked", report.get("large_sizes_done") == 4, report.get("large_sizes_done")),
+        floor("every large size checked", report.get("large_sizes_done") == n_large, report.get("large_sizes_done")),
         floor("all 256 ids", report.set_len("ids") == 256, report.set_len("ids")),
         floor("sizes whose data ends on a 16-byte boundary", report.get("sizes_ending_on_16_byte_boundary") > 0, report.get("sizes_ending_on_16_byte_boundary")),
         floor("column byte counts 0..=5 all seen", report.set_len("column_bytes") >= 6, report.set_len("column_bytes")),
@@ -251,7 +266,7 @@ pub fn run(ctx: &Ctx) -> Outcome {
     Outcome {
         report,
         level: "exploration",
-        rule: format!("every size in the box 0..={} x 0..={} + 11 real sizes (EVERY pixel individually) + 4 large sizes (corners + random pixels) + all 256 ids on 3 sizes; from_bytes with every length in [expected-17, expected+17], 0 and the unpadded size, from Vec and slice; distinct by (size,id); all non-trivial", bw, bh),
+        rule: format!("every size in the box 0..={} x 0..={} + 11 real sizes (EVERY pixel individually) + {} large sizes up to 70000 columns / 4000 rows (corners + random pixels) + all 256 ids on 3 sizes; from_bytes with every length in [expected-17, expected+17], 0 and the unpadded size, from Vec and slice; distinct by (size,id); all non-trivial", bw, bh, n_large),
         exhaustive: false,
         floors,
         assumptions: vec!["oracle: layout arithmetic in refs.rs (col_bytes, padded_len, image) written from the documented layout".into()],
